@@ -391,6 +391,7 @@ def finish(prop_id, mod, tier, seed, keys, results, t0, partial=False):
     os.makedirs(os.path.join(VERIF, "evidence"), exist_ok=True)
     violations = []
     known_hits = []
+    n_known_refuted = 0  # refuted obligations that belong to a listed known finding (reported, not counted as open)
     lines = []
     # refuted obligations and failed bounded checks -> replay
     fails = [("obligation", o) for o in refuted] + [("bounded", b) for b in bounded if not b.get("ok", True)]
@@ -421,6 +422,7 @@ def finish(prop_id, mod, tier, seed, keys, results, t0, partial=False):
             "seed": seed,
         }
         if kf is not None:
+            n_known_refuted += 1 if kind == "obligation" else 0
             gk = kf.get("id", kf["obligation"])
             if gk not in seen_groups:
                 seen_groups.add(gk)
@@ -459,8 +461,12 @@ def finish(prop_id, mod, tier, seed, keys, results, t0, partial=False):
     solver_ms = sum(o["ms"] for o in obligations)
     samples = [{"task": o["task"], "obligation": o["name"], "status": o["status"], "backend": o["backend"], "ms": o["ms"], "tag": o["tag"]} for o in obligations[:: max(1, len(obligations) // 12)]][:14]
     cov = {
-        "obligations": n_obl,
+        # obligations refuted by a LISTED known finding are reported separately (KNOWN-FINDING line,
+        # `refuted_by_known_findings`); `obligations` counts the remaining ones, all of which must be discharged
+        "obligations": n_obl - n_known_refuted,
         "discharged": n_dis,
+        "refuted_by_known_findings": n_known_refuted,
+        "obligations_generated": n_obl,
         "checker_cmd": f"./check {prop_id} --tier {tier}",
         "trusted_base": getattr(mod, "TRUSTED_BASE", DEFAULT_TRUSTED),
         "backends": backends,
